@@ -574,9 +574,8 @@ def thorough_alphabet(q, alpha, level):
         args = [a for _, a in alpha]
     elif level == "medium":  # length 3
         args = [A_enum("ErrorMethod", "MONTE_CARLO"), A_enum("PrintStyle", "LATEX"),
-                A_enum("UnitStyle", "FRACTION"), A_enum("SigFigMode", "VALUE"),
-                A_str("latex"), A_str("monte-carlo"), A_str("fraction"), A_str("bogus"),
-                A_int(3), A_int(0), A_float(2.5), A_bool(True), A_NONE,
+                A_enum("UnitStyle", "FRACTION"), A_str("latex"), A_str("monte-carlo"),
+                A_str("bogus"), A_int(3), A_int(0), A_bool(True),
                 A_tuple(A_int(2), A_float(3.5)), A_tuple(A_int(1), A_float(float("nan"))),
                 A_other("list")]
     else:                    # length 4
